@@ -32,3 +32,58 @@ def extracted_sink(repo):
 def write_extracted_sink(repo, coq_dir):
     from vlib import translate as tr
     return tr.write_if_changed(os.path.join(coq_dir, "Gen", "Extracted_sink.v"), extracted_sink(repo))
+
+
+# ------------------------------------------------------------------------------------------------
+# PacketSink.put (C08, part props/part_gensink.py): coq/Gen/Extracted_packetsink.v, bridged to sink_put_rec of
+# Elem/GenSink.v by coq/Packet/PacketSinkBridge.v; obligations in Props/C08_BridgeSink.v.
+
+PSINK_STATE = [("first_arrival", "mapQ"), ("last_arrival", "mapQ"), ("packets_received", "mapZ"), ("bytes_received", "mapZ")]
+PSINK_CONS = [("FxWait", "(k : Z) (w : Q)"),            # self.waits[k].append(w)
+              ("FxSize", "(k : Z) (n : Z)"),            # self.packet_sizes[k].append(n)
+              ("FxTime", "(k : Z) (t : Q)"),            # self.packet_times[k].append(t)
+              ("FxPerhop", "(k : Z)"),                  # self.perhop_times[k].append(packet.perhop_time)
+              ("FxArrival", "(k : Z) (t : Q)"),         # self.arrivals[k].append(t)
+              ("FxArrivalSetLast", "(k : Z) (v : Q)")]  # self.arrivals[k][-1] = v
+PSINK_FX = [("self.waits[_1].append(_2)", "FxWait", ["Z", "Q"]),
+            ("self.packet_sizes[_1].append(_2)", "FxSize", ["Z", "Z"]),
+            ("self.packet_times[_1].append(_2)", "FxTime", ["Z", "Q"]),
+            ("self.perhop_times[_1].append(packet.perhop_time)", "FxPerhop", ["Z"]),
+            ("self.arrivals[_1].append(_2)", "FxArrival", ["Z", "Q"]),
+            ("self.arrivals[_1][-1] = _2", "FxArrivalSetLast", ["Z", "Q"])]
+PSINK_READS = [("self.env.now", "now", "Q"),
+               ("self.rec_flow_ids", "rec_flow_ids", "bool"),
+               ("self.rec_waits", "rec_waits", "bool"),
+               ("self.rec_arrivals", "rec_arrivals", "bool"),
+               ("self.absolute_arrivals", "absolute_arrivals", "bool"),
+               ("packet.flow_id", "flow_id", "Z"),
+               ("packet.src", "src", "Z"),               # a source name; the plugin numbers the sources
+               ("packet.size", "size", "Z"),
+               ("packet.time", "ptime", "Q"),
+               # len(self.arrivals[rec_index]) AFTER this packet's arrival was appended
+               ("self.arrivals[rec_index]", "n_arrivals", "len", "needs:FxArrival")]
+PSINK_DEBUG = """if self.debug:
+    print("At time {:.1f}, packet {:d} arrived.".format(now, packet.packet_id))
+    if self.rec_waits and len(self.packet_sizes[rec_index]) >= 10:
+        bytes_received = sum(self.packet_sizes[rec_index][-9:])
+        time_elapsed = self.env.now - (
+            self.packet_times[rec_index][-10] + self.waits[rec_index][-10]
+        )
+        print(
+            "Average throughput (last 10 packets): {:.2f} bytes/second.".format(
+                float(bytes_received) / time_elapsed
+            )
+        )"""
+
+
+def extracted_packetsink(repo):
+    from vlib import translate as tr
+    spec = tr.FnSpec(os.path.join(repo, "onl", "packet", "sink.py"), "PacketSink", "put", "gen_PacketSink_put",
+                     reads=PSINK_READS, effects=PSINK_FX, ignore_stmts=[PSINK_DEBUG])
+    return tr.gen_module("onl/packet/sink.py: PacketSink.put (the `if self.debug:` block is dropped)", "psink_st", "p_",
+                         PSINK_STATE, "psink_fx", PSINK_CONS, [spec])
+
+
+def write_extracted_packetsink(repo, coq_dir):
+    from vlib import translate as tr
+    return tr.write_if_changed(os.path.join(coq_dir, "Gen", "Extracted_packetsink.v"), extracted_packetsink(repo))
